@@ -1027,9 +1027,84 @@ var mutIgnoreLimit = mutOp{Name: "ignore-limit", Doc: "replace the !rate.Reached
 
 // --- exploratory operators ---------------------------------------------------------------
 
-// exploreFloors: mutants reported today by each property's own rules (property/operator), minus a margin of 10 %
+// exploreFloors: mutants reported by each property's own rules (property/operator) when the floors were recorded, times 0.6:
+// the sample is chosen by a hash of the mutant's identity, which contains positions, so an unrelated edit of /repo changes
+// which mutants are drawn; the margin keeps the floor meaningful (a rule that stops reporting loses far more) without
+// making the tier fail on such an edit
 // for unrelated edits of the repository. Recomputed with `rocheck -prop <id> -tier thorough` (see the notes it prints).
-var exploreFloors = map[string]int{}
+var exploreFloors = map[string]int{
+	"C01/swap-statements":  31,  // 53 reported when recorded
+	"C01/delete-statement": 52,  // 87 reported when recorded
+	"C01/negate-condition": 52,  // 87 reported when recorded
+	"C01/weaken-condition": 4,   // 7 reported when recorded
+	"C02/delete-statement": 19,  // 32 reported when recorded
+	"C02/negate-condition": 3,   // 6 reported when recorded
+	"C03/swap-statements":  28,  // 48 reported when recorded
+	"C03/delete-statement": 54,  // 91 reported when recorded
+	"C03/negate-condition": 48,  // 80 reported when recorded
+	"C03/weaken-condition": 37,  // 62 reported when recorded
+	"C04/swap-statements":  36,  // 60 reported when recorded
+	"C04/delete-statement": 57,  // 95 reported when recorded
+	"C04/negate-condition": 52,  // 88 reported when recorded
+	"C04/weaken-condition": 67,  // 112 reported when recorded
+	"C05/swap-statements":  24,  // 40 reported when recorded
+	"C05/delete-statement": 83,  // 139 reported when recorded
+	"C05/negate-condition": 45,  // 75 reported when recorded
+	"C05/weaken-condition": 107, // 179 reported when recorded
+	"C06/swap-statements":  24,  // 41 reported when recorded
+	"C06/delete-statement": 37,  // 63 reported when recorded
+	"C06/negate-condition": 21,  // 35 reported when recorded
+	"C07/swap-statements":  21,  // 36 reported when recorded
+	"C07/delete-statement": 34,  // 57 reported when recorded
+	"C07/negate-condition": 83,  // 139 reported when recorded
+	"C07/weaken-condition": 42,  // 71 reported when recorded
+	"C08/swap-statements":  7,   // 12 reported when recorded
+	"C08/delete-statement": 12,  // 21 reported when recorded
+	"C08/negate-condition": 3,   // 6 reported when recorded
+	"C09/swap-statements":  10,  // 17 reported when recorded
+	"C09/delete-statement": 3,   // 6 reported when recorded
+	"C09/negate-condition": 16,  // 28 reported when recorded
+	"C10/swap-statements":  19,  // 33 reported when recorded
+	"C10/delete-statement": 48,  // 80 reported when recorded
+	"C10/negate-condition": 47,  // 79 reported when recorded
+	"C11/swap-statements":  22,  // 38 reported when recorded
+	"C11/delete-statement": 47,  // 79 reported when recorded
+	"C11/negate-condition": 39,  // 65 reported when recorded
+	"C11/weaken-condition": 34,  // 57 reported when recorded
+	"C12/swap-statements":  13,  // 22 reported when recorded
+	"C12/delete-statement": 34,  // 57 reported when recorded
+	"C12/negate-condition": 39,  // 66 reported when recorded
+	"C12/weaken-condition": 37,  // 62 reported when recorded
+	"C13/swap-statements":  37,  // 63 reported when recorded
+	"C13/delete-statement": 63,  // 105 reported when recorded
+	"C13/negate-condition": 36,  // 60 reported when recorded
+	"C13/weaken-condition": 32,  // 54 reported when recorded
+	"C14/swap-statements":  24,  // 40 reported when recorded
+	"C14/delete-statement": 36,  // 60 reported when recorded
+	"C14/negate-condition": 42,  // 70 reported when recorded
+	"C14/weaken-condition": 37,  // 62 reported when recorded
+	"C15/swap-statements":  13,  // 22 reported when recorded
+	"C15/delete-statement": 35,  // 59 reported when recorded
+	"C15/negate-condition": 35,  // 59 reported when recorded
+	"C15/weaken-condition": 31,  // 53 reported when recorded
+	"C16/swap-statements":  37,  // 63 reported when recorded
+	"C16/delete-statement": 48,  // 81 reported when recorded
+	"C16/negate-condition": 34,  // 58 reported when recorded
+	"C16/weaken-condition": 31,  // 53 reported when recorded
+	"C17/swap-statements":  31,  // 53 reported when recorded
+	"C17/delete-statement": 41,  // 69 reported when recorded
+	"C17/negate-condition": 34,  // 58 reported when recorded
+	"C17/weaken-condition": 31,  // 53 reported when recorded
+	"C18/swap-statements":  13,  // 22 reported when recorded
+	"C18/delete-statement": 24,  // 40 reported when recorded
+	"C18/negate-condition": 18,  // 30 reported when recorded
+	"C18/weaken-condition": 4,   // 8 reported when recorded
+	"C19/swap-statements":  6,   // 10 reported when recorded
+	"C19/delete-statement": 14,  // 24 reported when recorded
+	"C19/negate-condition": 4,   // 8 reported when recorded
+	"C20/delete-statement": 1,   // 2 reported when recorded
+	"C20/negate-condition": 1,   // 2 reported when recorded
+}
 
 // exploreSample: number of mutants run per exploratory operator and property.
 const exploreSample = 400
